@@ -721,9 +721,21 @@ func MapParamsMatrix() *m.Design {
 		HTTP: &m.HTTPEndpoint{Routes: []m.Route{{Verb: "GET", Path: "/mapparams/lists"}},
 			Query:   []m.Mapping{{Attr: "ids", Wire: "id"}, {Attr: "nums", Wire: "n"}, {Attr: "opts", Wire: "o"}},
 			Headers: []m.Mapping{{Attr: "hs", Wire: "X-Hs"}, {Attr: "ho", Wire: "X-Ho"}}}}
+	// the body is one payload attribute, optional (a request without body is
+	// fine) and required (it is not)
+	optbody := &m.Method{Name: "optbody", Payload: obj(fld("q", str(), true), fld("filters", arr(str()), false)), Result: ok(),
+		HTTP: &m.HTTPEndpoint{Routes: []m.Route{{Verb: "POST", Path: "/mapparams/optbody"}}, Query: []m.Mapping{{Attr: "q"}}, Body: &m.Body{Mode: "attr", Attr: "filters"}}}
+	reqbody := &m.Method{Name: "reqbody", Payload: obj(fld("q", str(), true), fld("filters", arr(str()), true)), Result: ok(),
+		HTTP: &m.HTTPEndpoint{Routes: []m.Route{{Verb: "POST", Path: "/mapparams/reqbody"}}, Query: []m.Mapping{{Attr: "q"}}, Body: &m.Body{Mode: "attr", Attr: "filters"}}}
+	// a body object all of whose attributes declare a default: still a body the server insists on
+	mdef, ldef := value.Str("fast"), value.Int(3)
+	mode, level := str(), m.Prim(m.Int)
+	mode.Default, level.Default = &mdef, &ldef
+	alldefaults := &m.Method{Name: "alldefaults", Payload: obj(fld("mode", mode, false), fld("level", level, false)), Result: ok(),
+		HTTP: &m.HTTPEndpoint{Routes: []m.Route{{Verb: "POST", Path: "/mapparams/alldefaults"}}}}
 	return &m.Design{API: m.API{Name: "mapparams", Title: "MapParams matrix"},
-		Services: []*m.Service{{Name: "mapparams", HasHTTP: true, Methods: []*m.Method{attr, multi, body, lists}}},
-		Features: []string{"fixed-design:map-params-matrix", "map-params", "renamed-required-collection-params"}}
+		Services: []*m.Service{{Name: "mapparams", HasHTTP: true, Methods: []*m.Method{attr, multi, body, lists, optbody, reqbody, alldefaults}}},
+		Features: []string{"fixed-design:map-params-matrix", "map-params", "renamed-required-collection-params", "body-is-an-optional-attribute", "body-of-defaulted-attributes-only"}}
 }
 
 // NestMatrix is a fixed design about collections nested three deep, in every
